@@ -533,8 +533,8 @@ func main() {
 		}
 		run.Finish("exploration", "replay of one recorded case")
 	}
-	nh := run.Pick(1500, 120000)
-	nbig := run.Pick(6, 150)
+	nh := run.Pick(1500, 30000)
+	nbig := run.Pick(6, 40)
 	workers := runtime.GOMAXPROCS(0)
 	var wg sync.WaitGroup
 	var next atomic.Uint64
@@ -554,7 +554,7 @@ func main() {
 	wg.Wait()
 	rounds := run.Pick(3, 20)
 	for i := 0; i < rounds; i++ {
-		concurrent(run, uint64(i), run.Pick(50000, 600000))
+		concurrent(run, uint64(i), run.Pick(50000, 300000))
 	}
 	run.Set("histories", nh+nbig)
 	run.Set("concurrent_rounds", rounds)
